@@ -41,7 +41,7 @@ from ..core import (AnalysisError, call_name, const_str, dotted, find_calls,
                     qualname, short, txt, walk)
 from ..normalize import expand_locals
 from ..lib_C14 import (BASIN_TYPES, CORE, DCORBASE, FB, FDICT, H5BASE,
-                       WRITER, Unknown, Mini, base_names, cfg_ids,
+                       WRITER, Raises, Unknown, Mini, base_names, cfg_ids,
                        class_assign, classes_in, edge_guarded,
                        enclosing_conditions, fact_guard, files_mentioning,
                        fold, fold_basin_classes, method, self_attr_writes,
@@ -93,6 +93,7 @@ ID_PAIRS = (
     ("2024-M7-ab12", "", "empty basin identifier"),
     ("", "2024-M7", "empty referrer identifier"),
     ("", "", "both empty"),
+    ("2024-M7-ab12", None, "basin without identifier"),
 )
 
 
@@ -1002,9 +1003,10 @@ def r143(ctx, repo, sites):
             for val in outcomes(d, env, mapping, depth + 1):
                 out += outcomes(expr, {**env, nm: val}, mapping, depth)
         return out
-    verdicts = [n for n in walk(vb) if isinstance(n, ast.Assign) and any(
+    flags = [n for n in walk(vb) if isinstance(n, ast.Assign) and any(
         is_self_attr(t, "_measurement_identifier_verified")
-        for t in n.targets) and not isinstance(n.value, ast.Constant)]
+        for t in n.targets)]
+    verdicts = [n for n in flags if not isinstance(n.value, ast.Constant)]
     if not verdicts:
         raise AnalysisError("verify_basin: identifier verdict lost")
     if not any(REF in txt(n.value) or any(
@@ -1012,42 +1014,71 @@ def r143(ctx, repo, sites):
             for n in verdicts):
         raise AnalysisError("verify_basin: the verdict does not depend on "
                             "the identifiers")
+    params = {a.arg for a in vb.args.args[1:]}
+    # state in which the identifier check is due: requested, basin
+    # available, not verified yet
+    DUE = {p_: True for p_ in params}
+    DUE.update({"self._measurement_identifier_verified": False,
+                "self.is_available()": True})
+    for nm in {t.id for n in walk(vb) if isinstance(n, ast.Assign)
+               for t in n.targets if isinstance(t, ast.Name)
+               and "is_available" in txt(n.value)}:
+        DUE[nm] = True
     n_eval = 0
     for mapping, law, lawtxt in (
-            ("same", lambda r, b: r == b, "referrer == basin"),
-            ("basinmap1", lambda r, b: r.startswith(b),
+            ("same", lambda r, b: b is not None and r == b,
+             "referrer == basin"),
+            ("basinmap1", lambda r, b: b is not None and r.startswith(b),
              "referrer.startswith(basin)")):
         bad = []
-        seen = 0
-        for n in verdicts:
-            if not applicable(n, mapping):
+        for ref, bas, what in ID_PAIRS:
+            env = dict(DUE)
+            env.update({"self.mapping": mapping, REF: ref})
+            env.update({k: bas for k in BAS})
+            got = []
+            try:
+                for n in flags:
+                    runs = True
+                    for t, pol in enclosing_conditions(n, vb):
+                        vals = {bool(v) for v in outcomes(t, env, mapping)}
+                        if len(vals) != 1:
+                            raise Unknown(f"{txt(t)} (ambiguous)")
+                        if vals != {pol}:
+                            runs = False
+                            break
+                    if runs:
+                        got += outcomes(n.value, env, mapping)
+            except Raises as u:
+                bad.append((what, ref, bas, f"makes verify_basin raise "
+                            f"(`{u}`)"))
                 continue
-            for ref, bas, what in ID_PAIRS:
-                env = {"self.mapping": mapping, REF: ref}
-                env.update({k: bas for k in BAS})
-                try:
-                    got = outcomes(n.value, env, mapping)
-                except Unknown as u:
-                    raise AnalysisError(
-                        f"verify_basin: identifier comparison "
-                        f"`{short(n.value, 60)}` cannot be evaluated "
-                        f"(`{u}`)")
-                seen += 1
-                for g in got:
-                    n_eval += 1
-                    if bool(g) != bool(law(ref, bas)):
-                        bad.append((what, ref, bas, bool(g)))
-        if not seen:
-            raise AnalysisError(f"verify_basin: no identifier comparison "
-                                f"applies to mapping {mapping!r}")
+            except Unknown as u:
+                raise AnalysisError(
+                    f"verify_basin: identifier comparison cannot be "
+                    f"evaluated for referrer {ref!r} / basin {bas!r} "
+                    f"(`{u}`)")
+            if not got:
+                bad.append((what, ref, bas, "gets no verdict although the "
+                            "check is due (requested, basin available, not "
+                            "verified yet)"))
+                continue
+            for g in got:
+                n_eval += 1
+                acc = g is NotImplemented or bool(g)
+                if acc != bool(law(ref, bas)):
+                    bad.append((what, ref, bas,
+                                ("is accepted" if acc else "is rejected")
+                                + (" (the comparison returns NotImplemented, "
+                                   "which is truthy)"
+                                   if g is NotImplemented else "")))
         ctx.ob("R14.3", not bad,
-               f"mapping {mapping!r}: the verifier equals `{lawtxt}` on "
-               f"{len(ID_PAIRS)} identifier pairs" if not bad else
+               f"mapping {mapping!r}: the verdict equals `{lawtxt}` on "
+               f"{len(ID_PAIRS)} identifier pairs (a basin without "
+               f"identifier is rejected)" if not bad else
                f"mapping {mapping!r}: referrer {bad[0][1]!r} / basin "
-               f"{bad[0][2]!r} ({bad[0][0]}) is "
-               f"{'accepted' if bad[0][3] else 'rejected'}, the law "
+               f"{bad[0][2]!r} ({bad[0][0]}) {bad[0][3]}, the law "
                f"`{lawtxt}` says "
-               f"{'reject' if bad[0][3] else 'accept'} "
+               f"{'accept' if law(bad[0][1], bad[0][2]) else 'reject'} "
                f"({len(bad)} of {len(ID_PAIRS)} pairs differ)",
                node=verdicts[0], label=f"identifier law [{mapping}]")
     ctx.stat("R14.3 verifier evaluations", n_eval)
@@ -1233,9 +1264,15 @@ def r143(ctx, repo, sites):
             continue      # store_basin skips the check without identifier
         for mapped in (False, True):
             env = {cur: ref, oth: bas, mapname: marker if mapped else None}
-            rejected = bool(fold(tests[0].test, env,
-                                 "store_basin identifier test"))
-            want_ok = ref == bas or (mapped and ref.startswith(bas))
+            try:
+                rejected = bool(Mini(env).ev(tests[0].test))
+            except Raises:
+                rejected = True     # an exception refuses the basin as well
+            except Unknown as u:
+                raise AnalysisError("cannot fold store_basin identifier "
+                                    f"test (`{u}`)")
+            want_ok = bas is not None and (
+                ref == bas or (mapped and ref.startswith(bas)))
             n_cases += 1
             if rejected == want_ok:
                 bad.append((rel_, ref, bas, "mapped" if mapped else "same",
@@ -1559,10 +1596,21 @@ MUTANTS = [
       '        self.title = "{} - M{}".format('), "R14.2"),
     # ---- R14.3
     ("startswith arguments swapped", FB,
-     ("                        self.measurement_identifier,\n"
-      "                        self.get_measurement_identifier()\n",
-      "                        self.get_measurement_identifier(),\n"
-      "                        self.measurement_identifier\n"), "R14.3"),
+     ("                            self.measurement_identifier,\n"
+      "                            basin_identifier\n",
+      "                            basin_identifier,\n"
+      "                            self.measurement_identifier\n"), "R14.3"),
+    ("guard for a basin without identifier removed (F14b returns)", FB,
+     ("                    if basin_identifier is None:\n",
+      "                    if False:\n"), "R14.3"),
+    ("basin without identifier counts as verified", FB,
+     ("                        # and `str.startswith(..., None)` raises "
+      "TypeError).\n"
+      "                        self._measurement_identifier_verified = False\n",
+      "                        # and `str.startswith(..., None)` raises "
+      "TypeError).\n"
+      "                        self._measurement_identifier_verified = True\n"),
+     "R14.3"),
     ("mapped basins need equal identifiers", FB,
      ("                        verifier = str.startswith\n",
       "                        verifier = str.__eq__\n"), "R14.3"),
@@ -1585,10 +1633,10 @@ MUTANTS = [
       "                        verifier = lambda a, b: a.lower() == b.lower()\n"),
      "R14.3"),
     ("equality arguments both the referrer", FB,
-     ("                        self.measurement_identifier,\n"
-      "                        self.get_measurement_identifier()\n",
-      "                        self.measurement_identifier,\n"
-      "                        self.measurement_identifier\n"), "R14.3"),
+     ("                            self.measurement_identifier,\n"
+      "                            basin_identifier\n",
+      "                            self.measurement_identifier,\n"
+      "                            self.measurement_identifier\n"), "R14.3"),
     ("writer: basin id accepted anywhere in the referrer's", WRITER,
      ("and cur_id.startswith(ds_id))):", "and ds_id in cur_id)):"),
      "R14.3"),
@@ -1625,7 +1673,9 @@ MUTANTS = [
       "    def _load_dataset(self, location, **kwargs):\n"
       "        h5file = RTDC_HTTP(location, **kwargs)\n"), "R14.3"),
     ("basins start verified", FB,
-     ("        self._measurement_identifier_verified = False\n",
+     ("        self.measurement_identifier = measurement_identifier\n"
+      "        self._measurement_identifier_verified = False\n",
+      "        self.measurement_identifier = measurement_identifier\n"
       "        self._measurement_identifier_verified = True\n"), "R14.3"),
     ("writer: prefix test swapped", WRITER,
      ("and cur_id.startswith(ds_id))):", "and ds_id.startswith(cur_id))):"),
@@ -1773,15 +1823,23 @@ TWINS = [
      ("                        verifier = str.startswith\n",
       "                        verifier = lambda a, b: a[:len(b)] == b\n")),
     ("verdict as direct comparison", FB,
-     ("                    self._measurement_identifier_verified = verifier(\n"
-      "                        self.measurement_identifier,\n"
-      "                        self.get_measurement_identifier()\n"
-      "                    )\n",
-      "                    bn_id = self.get_measurement_identifier()\n"
+     ("                    if basin_identifier is None:\n"
+      "                        # The basin does not have a measurement identifier\n"
+      "                        # and can thus not be matched with the referrer\n"
+      "                        # (`str.__eq__(..., None)` returns `NotImplemented`\n"
+      "                        # and `str.startswith(..., None)` raises TypeError).\n"
+      "                        self._measurement_identifier_verified = False\n"
+      "                    else:\n"
+      "                        self._measurement_identifier_verified = verifier(\n"
+      "                            self.measurement_identifier,\n"
+      "                            basin_identifier\n"
+      "                        )\n",
+      "                    own_id = self.measurement_identifier\n"
       "                    self._measurement_identifier_verified = bool(\n"
-      "                        self.measurement_identifier == bn_id\n"
-      "                        if self.mapping == \"same\" else\n"
-      "                        self.measurement_identifier.startswith(bn_id))\n")),
+      "                        basin_identifier is not None and (\n"
+      "                            own_id == basin_identifier\n"
+      "                            if self.mapping == \"same\" else\n"
+      "                            own_id.startswith(basin_identifier)))\n")),
     ("bare except", CORE,
      ("                except BaseException:\n", "                except:\n")),
     ("Basin.ds installs through a local name", FB,
